@@ -118,3 +118,45 @@ def twin_sequence():
             out.append(spec(names, (), list(zip(rows, coefs))))
         out.append(spec(names, (2,), [(r, [i + 1, -(i + 2) if i % 2 else 0]) for i, r in enumerate(rows)]))
     return out + out[::-1]
+
+
+def wide_specs():
+    """Polynomials with MANY indeterminates and/or LARGE exponents (regimes where packed integer codes of exponent rows,
+    flat multi-indices, narrow scratch dtypes and the like overflow): 9 names at power 255, 17 at power 15, 12 at power 50,
+    40 linear (numpy cannot hold structured field names that differ only beyond 64 characters), 5 at power 65535, and 3 names with exponents around 1000 .. 70000."""
+    out = []
+
+    def names(k):
+        return tuple(f"q{i}" for i in range(k))
+
+    def unit(k, i, e):
+        return tuple(e if j == i else 0 for j in range(k))
+    for k, e, label in ((9, 255, "9 names ^255"), (17, 15, "17 names ^15"), (12, 50, "12 names ^50"), (40, 1, "40 names linear"), (5, 65535, "5 names ^65535")):
+        terms = [(unit(k, i, e), (i % 3) + 1) for i in range(k)] + [((0,) * k, -2)]
+        out.append((label, spec(names(k), (), terms)))
+        # a second polynomial in the same regime that differs only in trailing columns / coefficients
+        terms2 = [(unit(k, i, e), ((i + 1) % 4) - 1) for i in range(k - 1, -1, -2)] + [(unit(k, k - 1, e - 1 if e > 1 else 2), 5)]
+        out.append((label + " b", spec(names(k), (), terms2)))
+    n3 = ("q0", "q1", "q2")
+    fam = [[((0, 0, 1700), 1)], [((0, 1000, 700), 1)], [((70000, 0, 0), 1)], [((1626, 1626, 1626), 2), ((0, 0, 1), -1)],
+           [((0, 0, 1700), 1), ((0, 1000, 700), -1)], [((65536, 1, 0), 1), ((65535, 2, 0), 1)], [((1, 0, 0), 1), ((0, 0, 0), 1)]]
+    for i, t in enumerate(fam):
+        out.append((f"3 names big exponents {i}", spec(n3, (), t)))
+    out.append(("other names big", spec(("q1", "q3"), (), [((300, 0), 1), ((0, 256), -1)])))
+    out.append(("small other names", spec(("q2", "q70"), (), [((1, 1), 1), ((0, 0), 1)])))
+    return out
+
+
+def magnitude_specs():
+    """float polynomials whose coefficients span many orders of magnitude (a term of size 1e-9 or 1e-300 is still a term)"""
+    n2 = ("q0", "q1")
+    out = []
+    for tiny in (1e-9, 2.5e-9, 1e-30, 1e-300, 5e-324):
+        out.append(spec(n2, (), [((1, 0), tiny)], "f8"))
+        out.append(spec(n2, (), [((1, 0), tiny), ((0, 0), 1.0)], "f8"))
+        out.append(spec(n2, (2,), [((1, 1), [tiny, 0.0]), ((1, 0), [0.0, tiny]), ((0, 0), [0.0, 1.0])], "f8"))
+        out.append(spec(n2, (), [((0, 2), -tiny), ((1, 0), 1e300)], "f8"))
+    out.append(spec(n2, (), [((1, 0), 1e300), ((0, 1), -1e300)], "f8"))
+    out.append(spec(n2, (), [((0, 0), 1e-12)], "f8"))
+    out.append(spec(n2, (), [((0, 0), 1e-12 + 1e-12j), ((1, 0), 1e-20j)], "c16"))
+    return out
